@@ -394,6 +394,11 @@ func genConfig(r rng, seed uint64, id string, merge bool) *sdl.Program {
 			u := &sdl.Conf{Field: fmt.Sprintf("C%d", nf+1), Menu: pick(r, []string{"value", "prop"}), Keys: []string{"gone.b"}, GoType: pick(r, []string{"int", "int", "ints", "dur"}), Optional: r.p(0.6)}
 			t.Config = append(t.Config, d, u)
 		}
+		if !merge && r.p(0.15) {
+			// a configuration holder that names its own prefix (value-receiver method), declared
+			// as an untagged nil pointer
+			t.Config = append(t.Config, &sdl.Conf{Field: "CT", Menu: "typePrefix", Keys: []string{"sim.sub"}, GoType: "cfgpv"})
+		}
 		if r.p(0.2) {
 			// a prefix-bound struct declared as a tagged anonymous field
 			t.Config = append(t.Config, &sdl.Conf{Field: "CfgAB", Menu: "prefixStruct", Keys: []string{"sim.sub"}, GoType: "struct",
@@ -422,6 +427,12 @@ func genConfig(r rng, seed uint64, id string, merge bool) *sdl.Program {
 			c2 := genConf(r, "C0")
 			c2.Embed = nil
 			lz.Config = append(lz.Config, c2)
+		}
+		if r.p(0.5) {
+			// the first attempt to create the lazy component fails on a constraint; the
+			// application then changes the configuration and asks again
+			lz.Config = append(lz.Config, &sdl.Conf{Field: "CM", Menu: "sumDef", Keys: []string{"late.b", pick(r, cfgLeafInts[:3])}, Default: "0", GoType: "int", Validate: "min=10", Optional: true})
+			p.PostSetKey, p.PostSetVal = "late.b", 10+r.n(0, 5)
 		}
 		p.Types = append(p.Types, lz)
 		p.Instances = append(p.Instances, &sdl.Instance{ID: fmt.Sprintf("c%d", nt), Type: lz.Name})
